@@ -2,6 +2,7 @@
 """Copies confirmed seeds (verified by verify_seeds.py) into /verif/seeded/<id>/ with meta.json."""
 import json, os, shutil, sys, re
 ROOT, RES, DEST = sys.argv[1], sys.argv[2], "/verif/seeded"
+SUFFIX = sys.argv[3] if len(sys.argv) > 3 else ""   # e.g. "2" for the second seeding round -> ids like C04a2
 for f in sorted(os.listdir(RES)):
     if not f.endswith(".json"): continue
     r = json.load(open(os.path.join(RES, f)))
@@ -9,18 +10,21 @@ for f in sorted(os.listdir(RES)):
         print("skip (not confirmed)", r["id"], r.get("error","")); continue
     prop, var = r["id"].split("/")
     src = os.path.join(ROOT, prop, var)
-    dst = os.path.join(DEST, f"{prop}{var}")
+    dst = os.path.join(DEST, f"{prop}{var}{SUFFIX}")
     os.makedirs(dst, exist_ok=True)
     shutil.copy(os.path.join(src, "patch.diff"), dst)
-    for x in os.listdir(src):
-        if x.endswith("_test.go") or x in ("demo_cmd.txt", "notes.md"):
-            shutil.copy(os.path.join(src, x), dst)
+    for root, _, files in os.walk(src):
+        for x in files:
+            if x.endswith("_test.go") or x in ("demo_cmd.txt", "notes.md"):
+                rel = os.path.relpath(root, src)
+                os.makedirs(os.path.join(dst, rel), exist_ok=True)
+                shutil.copy(os.path.join(root, x), os.path.join(dst, rel))
     notes = open(os.path.join(src, "notes.md")).read() if os.path.exists(os.path.join(src, "notes.md")) else ""
     needs = ""
     m = re.search(r"(?is)(what it needs[^\n]*\n.*?)(\n#|\n\*\*|\Z)", notes)
     if m: needs = m.group(1).strip()[:1200]
     meta = {
-        "id": f"{prop}{var}", "property": prop, "origin": "independent sub-agent given only the property text and a scratch worktree",
+        "id": f"{prop}{var}{SUFFIX}", "property": prop, "round": int(SUFFIX or 1), "origin": "independent sub-agent given only the property text and a scratch worktree",
         "repo_head_verified_against": r["head"],
         "needs_to_manifest": needs or "see notes.md",
         "what_i_ran": [
